@@ -350,15 +350,18 @@ def u_autotool(c):
     levels = [(fns[0], caps0)] + [(fns[1 + j], children[j].fields["captures"]) for j in range(nchild)]
     tag = "untool" if undo else "tool"
     tool_events = [e for e in events if e[0] != "verify"]
-    c.prove("walk/one-call-per-level-preorder", len(tool_events) == len(levels) and all(e[0] == tag and e[1] is f and e[2] is cp for e, (f, cp) in zip(tool_events, levels)))
+    n = len(levels)
+    first = tool_events[:n]
+    c.prove("walk/one-call-per-level-preorder", len(first) == n and all(e[0] == tag and e[1] is f and e[2] is cp for e, (f, cp) in zip(first, levels)))
     if undo:
-        c.prove("undo/no-verify-no-raise", st == "ok" and not any(e[0] == "verify" for e in events))
+        c.prove("undo/no-verify-no-raise", st == "ok" and not any(e[0] == "verify" for e in events) and len(tool_events) == n)
     elif bad:
         c.prove("refused/SelectorError", st == "raise" and exc_name(r) == "SelectorError")
-        # from the property (C05/C10): a refused activation leaves no trace -> every push must have been undone
-        pushes = sum(1 for e in events if e[0] == "tool")
-        pops = sum(1 for e in events if e[0] == "untool")
-        c.prove("refused/leaves-no-instrumentation-behind", pushes == pops, only=["C05", "C10"])
+        # from the property (C05/C10): a refused activation leaves no trace -> every push is undone, innermost first, after verify
+        rest = tool_events[n:]
+        c.prove("refused/leaves-no-instrumentation-behind", len(rest) == n and all(e[0] == "untool" and e[1] is f and e[2] is cp
+                                                                                    for e, (f, cp) in zip(rest, reversed(levels))), only=["C05", "C10"])
+        c.prove("refused/verify-ran-once-after-tooling", [e[0] for e in events].count("verify") == 1 and [e[0] for e in events].index("verify") == n)
     else:
         c.prove("ok/verified-after-tooling", st == "ok" and events[-1][0] == "verify" and events[-1][1] is r)
         c.prove("ok/result-is-selector-over-the-tooled-functions", isinstance(r, Obj) and r.cls is Call and r.fields["element"].fields["name"] is fns[0])
